@@ -77,6 +77,14 @@ func discharge(q *Query, prelude string, budget int, thorough bool) *Outcome {
 	text := smtHeader + prelude + q.Text + "(check-sat)\n"
 	valueReq := q.valueRequest()
 	full := text + valueReq
+	if q.Ob.Cover {
+		// reachability covers: a quick satisfiability probe; "unknown" is inconclusive, not a failure
+		r := runSolver(context.Background(), "z3-new", full, 2)
+		oc.Results = append(oc.Results, r)
+		oc.SolverS += r.Secs
+		oc.finish()
+		return oc
+	}
 	if !thorough {
 		r := runSolver(context.Background(), "z3-new", full, 2)
 		oc.Results = append(oc.Results, r)
